@@ -429,5 +429,6 @@ func checkC07(c *Ctx) int {
 	run.Assume = []string{"TLC bounded model (see tlc_model)", "Badger store; single process; ServeSingleHTTP path"}
 	fmt.Printf("C07: tlc %d states; replayed %d accepted edges, %d refused requests over %d states in %.1fs; violations=%d\n",
 		mc.Distinct, nAccepted, nRejected, nStates, since(t0), run.Violations())
+	checkMgrTraces(c, run) // internal events of the repo manager validated against DvidMgrTrace (c07_mgrtrace.go)
 	return run.Finish()
 }
